@@ -766,6 +766,8 @@ func runC10(c *Ctx, r *Rec) {
 		return
 	}
 	info := c.info("cdcn")
+	shapeLints(c, r, fileFuncs(c, "cdcn", fr.n, fr.cls))
+	checkArmsAnswerTheirOwnName(c, r, "D3-context-names-the-kind", fileFuncs(c, "cdcn", fr.n, fr.cls))
 	st := c.scanTables()
 	if len(st.problems) > 0 || len(st.matchers) == 0 || len(st.order) == 0 {
 		r.undecided("bind", "cdcn.scanner-tables", "", "cannot extract the scanner's matcher table and scan order: "+strings.Join(st.problems, "; "))
